@@ -1,0 +1,166 @@
+//! Verification hook H3 (feature `verif-hooks` only): drop-in replacements for `std::sync::{Mutex, Condvar}`
+//! that report acquisitions, releases and condition-variable waits to an observer installed by an
+//! out-of-tree harness. Without an observer they behave exactly like the std types.
+use std::fmt;
+use std::ops::{Deref, DerefMut};
+use std::sync::{LockResult, PoisonError, RwLock};
+
+pub use std::sync::Arc;
+
+/// Callbacks of the harness. `before_acquire` and `cv_wait` may block the calling thread (a
+/// controlled scheduler decides who runs); the others must return promptly.
+pub trait Observer: Send + Sync {
+    /// Called before a thread tries to take `lock`.
+    fn before_acquire(&self, lock: &'static str);
+    /// Called once the thread holds `lock`.
+    fn acquired(&self, lock: &'static str);
+    /// Called when the thread has released `lock`.
+    fn released(&self, lock: &'static str);
+    /// Called when a thread starts waiting on the condition variable paired with `lock` (which it has
+    /// released). If it returns true the observer has done the waiting itself (controlled mode) and the
+    /// wrapper re-acquires the lock without touching the std condition variable.
+    fn cv_wait(&self, lock: &'static str) -> bool;
+    /// Called when the wait is over (before the lock is re-acquired).
+    fn cv_wake(&self, lock: &'static str);
+    /// Called on `notify_all`.
+    fn cv_notify(&self);
+}
+
+static OBSERVER: RwLock<Option<std::sync::Arc<dyn Observer>>> = RwLock::new(None);
+
+pub fn set_observer(o: Option<std::sync::Arc<dyn Observer>>) {
+    *OBSERVER.write().unwrap_or_else(|e| e.into_inner()) = o;
+}
+
+fn observer() -> Option<std::sync::Arc<dyn Observer>> {
+    OBSERVER.read().unwrap_or_else(|e| e.into_inner()).clone()
+}
+
+pub struct Mutex<T> {
+    inner: std::sync::Mutex<T>,
+}
+
+pub struct MutexGuard<'a, T> {
+    guard: Option<std::sync::MutexGuard<'a, T>>,
+    lock: &'a Mutex<T>,
+}
+
+impl<T> Mutex<T> {
+    pub fn new(t: T) -> Self {
+        Mutex {
+            inner: std::sync::Mutex::new(t),
+        }
+    }
+
+    pub fn name(&self) -> &'static str {
+        std::any::type_name::<T>()
+    }
+
+    pub fn lock(&self) -> LockResult<MutexGuard<'_, T>> {
+        let obs = observer();
+        if let Some(o) = &obs {
+            o.before_acquire(self.name());
+        }
+        let r = match self.inner.lock() {
+            Ok(g) => Ok(MutexGuard {
+                guard: Some(g),
+                lock: self,
+            }),
+            Err(p) => Err(PoisonError::new(MutexGuard {
+                guard: Some(p.into_inner()),
+                lock: self,
+            })),
+        };
+        if let Some(o) = &obs {
+            o.acquired(self.name());
+        }
+        r
+    }
+}
+
+impl<T: fmt::Debug> fmt::Debug for Mutex<T> {
+    fn fmt(&self, f: &mut fmt::Formatter<'_>) -> fmt::Result {
+        self.inner.fmt(f)
+    }
+}
+
+impl<T> Deref for MutexGuard<'_, T> {
+    type Target = T;
+    fn deref(&self) -> &T {
+        self.guard.as_ref().unwrap()
+    }
+}
+
+impl<T> DerefMut for MutexGuard<'_, T> {
+    fn deref_mut(&mut self) -> &mut T {
+        self.guard.as_mut().unwrap()
+    }
+}
+
+impl<T> Drop for MutexGuard<'_, T> {
+    fn drop(&mut self) {
+        if self.guard.take().is_some() {
+            if let Some(o) = observer() {
+                o.released(self.lock.name());
+            }
+        }
+    }
+}
+
+#[derive(Debug, Default)]
+pub struct Condvar {
+    inner: std::sync::Condvar,
+}
+
+impl Condvar {
+    pub fn new() -> Self {
+        Condvar {
+            inner: std::sync::Condvar::new(),
+        }
+    }
+
+    pub fn wait<'a, T>(&self, mut guard: MutexGuard<'a, T>) -> LockResult<MutexGuard<'a, T>> {
+        let lock = guard.lock;
+        let name = lock.name();
+        match observer() {
+            None => {
+                let g = guard.guard.take().unwrap();
+                match self.inner.wait(g) {
+                    Ok(g) => Ok(MutexGuard { guard: Some(g), lock }),
+                    Err(p) => Err(PoisonError::new(MutexGuard {
+                        guard: Some(p.into_inner()),
+                        lock,
+                    })),
+                }
+            }
+            Some(o) => {
+                // the lock is released for the duration of the wait
+                let g = guard.guard.take().unwrap();
+                o.released(name);
+                if o.cv_wait(name) {
+                    drop(g);
+                    o.cv_wake(name);
+                    lock.lock()
+                } else {
+                    let r = self.inner.wait(g);
+                    o.cv_wake(name);
+                    o.acquired(name);
+                    match r {
+                        Ok(g) => Ok(MutexGuard { guard: Some(g), lock }),
+                        Err(p) => Err(PoisonError::new(MutexGuard {
+                            guard: Some(p.into_inner()),
+                            lock,
+                        })),
+                    }
+                }
+            }
+        }
+    }
+
+    pub fn notify_all(&self) {
+        if let Some(o) = observer() {
+            o.cv_notify();
+        }
+        self.inner.notify_all();
+    }
+}
